@@ -4,6 +4,6 @@ current tree; the per-property texts live in harness/props/<id>.py as a literal 
 COMMON_NOTE = ("Trusted: Lean 4.33 kernel; axioms within {propext, Classical.choice, Quot.sound} (audited per theorem each run); "
                "translate/gen.py; the correspondence harness; Python runtime semantics as modelled in lean/Pycoin/Py. ")
 
-CLAIMED = ["C01", "C02", "C03", "C04", "C05", "C06", "C07", "C08", "C10", "C11", "C12", "C13", "C14", "C15", "C16", "C17", "C18", "C19", "C20"]
+CLAIMED = ["C01", "C02", "C03", "C04", "C05", "C06", "C07", "C08", "C09", "C10", "C11", "C12", "C13", "C14", "C15", "C16", "C17", "C18", "C19", "C20"]
 
 NOT_YET = {("C%02d" % i): "check not built yet at this commit (work in progress; see DESIGN.md build order)" for i in range(1, 21)}
